@@ -96,17 +96,37 @@ def c_disparity(nwords):
             n1 = ones(W[i]); din = bef if i == 0 else A[i - 1]; dout = A[i]
             cl.append(z3.Or(z3.And(n1 == 5, dout == din), z3.And(n1 == 6, din == K(0, 1), dout == K(1, 1)), z3.And(n1 == 4, din == K(1, 1), dout == K(0, 1))))
         return z3.And(*cl)
+    # the LINE: what leaves on source.data, bit 0 first (lane 0 first, each 10-bit lane lsb first - the order the serialisers behind the stream wrappers use).
+    # The disparity is recomputed from the bits themselves (no reference to the encoder's internal words or reported disparities): after every
+    # lane the running disparity is back within one bit of balance, the last one is the disparity the encoder reports, and no six equal bits in a row
+    # occur inside a beat (lane boundaries included).
+    SD = X(d.source.data); LN = [z3.Extract(10 * i + 9, 10 * i, SD) for i in range(nwords)]
+    def line_rule(bef):
+        cl = []; din = bef
+        for i in range(nwords):
+            n1 = ones(LN[i])
+            cl.append(z3.Or(n1 == 5, z3.And(n1 == 6, din == K(0, 1)), z3.And(n1 == 4, din == K(1, 1))))
+            din = z3.If(n1 == 6, K(1, 1), z3.If(n1 == 4, K(0, 1), din))
+        return z3.And(*cl, din == A[-1])
+    def line_run5():
+        bits = [z3.Extract(j, j, SD) for j in range(10 * nwords)]
+        return z3.And(*[z3.Not(z3.And(*[bits[j + t] == bits[j] for t in range(1, 6)])) for j in range(10 * nwords - 5)])
     ve = _valid_regs(h, "streamencoder")
     adv = advancer(h, d.source.ready)
     if len(ve) == 2:
         h.hint("v1", X(ve[0]) == gv1); h.hint("v2", X(ve[1]) == gv2)
         h.hint("rule@2", z3.Implies(b(gv2), rule(before)))
         h.hint("rule@1", z3.Implies(b(gv1), adv(rule(before))))          # the word the first stage is going to produce obeys the rule
+        h.hint("run5@2", z3.Implies(b(gv2), line_run5())); h.hint("run5@1", z3.Implies(b(gv1), adv(line_run5())))
+        h.hint("line@2", z3.Implies(b(gv2), line_rule(before))); h.hint("line@1", z3.Implies(b(gv1), adv(line_rule(before))))
     h.hint("rd=last", rd == A[-1])
     h.hint("c1->v", z3.Implies(b(c1), z3.And(b(gv1), b(gv2)))); h.hint("c2->v2", z3.Implies(b(c2), b(gv2)))
     h.hint("contig", z3.Implies(z3.And(b(gv2), b(c2)), before == bal))
     h.ensure("ens.valid", X(d.source.valid) == gv2)
     h.ensure("ens.rd.word", z3.Implies(b(X(d.source.valid)), rule(before)))                             # each delivered word is a legal code word for the disparity the encoder was in
+    h.ensure("ens.line.rd", z3.Implies(b(X(d.source.valid)), line_rule(before)))                        # the same, on the bits of source.data in line order
+    h.ensure("ens.line.rd.contiguous", z3.Implies(z3.And(out_fire, b(c2)), line_rule(bal)))
+    h.ensure("ens.line.run5", z3.Implies(b(X(d.source.valid)), line_run5()))
     h.ensure("ens.rd.stall", z3.Implies(z3.Not(ce), z3.And(h.n(singles[0].disp_in) == rd, *[h.n(x) == X(x) for x in enc.disparity], *[h.n(o) == X(o) for o in enc.output])))
     h.ensure("ens.rd.contiguous", z3.Implies(z3.And(out_fire, b(c2)), rule(bal)))                        # back-to-back symbols: disparity-continuous delivered stream
     # a symbol accepted after an upstream pause: the encoder also ran on the idle cycle(s) (encoder.ce = pipe_ce, not pipe_ce & valid),
@@ -130,4 +150,5 @@ def cases(tier):
 
 ASSUMPTIONS = ["stream wrappers: only the 256 data symbols and the 12 defined control symbols are offered while sink.valid is high; sink.d/sink.k are unconstrained while valid is low",
                "stream wrappers: the producer holds valid and its token until accepted (C04 precondition); the consumer's ready is unconstrained",
+               "line order of StreamEncoder.source.data: bit 0 first (lane 0 first, each lane lsb first), the order of the lsb-first codec the wrappers are built from; ens.line.* recompute the disparity from those bits",
                "running disparity of the delivered stream is checked word by word against the disparity reported after the previously delivered word (resynchronised at every word, so one discontinuity does not mask later ones)"]
